@@ -13,7 +13,7 @@ from twisted.internet.protocol import Protocol
 from twisted.protocols import portforward
 from twisted.python.failure import Failure
 
-from .client import KEYMAP, VNCDoToolClient
+from .client import KEYMAP, PF2IM, VNCDoToolClient
 from .rfb import AuthTypes, Encoding, IntEnumLookup, PixelFormat, Rect
 
 log = logging.getLogger(__name__)
@@ -243,6 +243,11 @@ class VNCLoggingClient(VNCDoToolClient):
 
     capture_file: str | None = None
 
+    def setImageMode(self) -> None:
+        # just follow the pixel format in force between server and viewer,
+        # nobody would see a SetPixelFormat sent from here
+        self.image_mode = PF2IM.get(self.pixel_format)
+
     def commitUpdate(self, rectangles: list[Rect] | None = None) -> None:
         if self.capture_file:
             assert self.screen is not None
@@ -329,6 +334,12 @@ class VNCLoggingServerProxy(portforward.ProxyServer, RFBServer):  # type: ignore
     def _handle_clientInit(self) -> None:
         RFBServer._handle_clientInit(self)
         self.peer.startLogging(self)
+
+    def handle_setPixelFormat(self, pixel_format: PixelFormat) -> None:
+        vnclog = self.peer.vnclog if self.peer else None
+        if vnclog:
+            vnclog.pixel_format = pixel_format
+            vnclog.setImageMode()
 
     def handle_keyEvent(self, key: int, down: bool) -> None:
         now = time.time()
